@@ -123,6 +123,15 @@ def run_shard(spec, R):
 
             # ---------------- face -> cell reconstruction
             pts = [None, np.full(dim, 0.5), rng.random(dim), np.zeros(dim), np.ones(dim), (rng.random(dim) > 0.5).astype(float)]
+            if dim > 1:
+                # points that are central on some axes only: a face midpoint (one component 0 or 1, the others 0.5)
+                # and a point with one component 0.5 and the others arbitrary
+                fm = np.full(dim, 0.5)
+                fm[int(rng.integers(0, dim))] = float(rng.integers(0, 2))
+                mx = rng.random(dim)
+                mx[int(rng.integers(0, dim))] = 0.5
+                pts += [fm, mx]
+                R.count("face_to_cell_point_central_on_some_axes_only", 2)
             for pi, pt in enumerate(pts):
                 arg = pt
                 if dim == 1 and pt is not None and pi % 2 == 0:
